@@ -64,8 +64,13 @@ class Task:
             raise self.exc
         return self.result_
 
+    def cancelled(self):
+        return self.done_ and isinstance(self.exc, CancelledError)
+
     def exception(self):
         self.exc_retrieved = True
+        if isinstance(self.exc, CancelledError):
+            raise self.exc          # like asyncio.Task.exception() on a cancelled task
         return self.exc
 
     def cancel(self):
